@@ -99,6 +99,17 @@ func c17Pinned(name string) c17Case {
 			{"disjunction_as_options": map[string]any{"by_name": "S.n", "argument_index": -1}},
 			{"disjunction_as_options": map[string]any{"by_name": "S.tags", "argument_index": 1}},
 		}
+	case "add-assignment-two-options-rename-one":
+		// until /repo b52532c both added assignments held the RULE's *Argument: renaming it through one
+		// option renamed it in the other. Must pass.
+		arg := map[string]any{"name": "a", "type": yamlScalar("bool")}
+		f.Options = []map[string]any{
+			{"add_assignment": map[string]any{"by_names": map[string]any{"object": "S", "options": []string{"a", "n"}},
+				"assignment": map[string]any{"path": "a", "method": "direct", "value": map[string]any{"argument": arg}}}},
+		}
+		g := vFile{Language: "go", Package: "p", Options: []map[string]any{{"rename_arguments": map[string]any{"by_name": "S.a", "as": []string{"x"}}}}}
+		cs.files = []vFile{f, g}
+		return cs
 	case "compose-then-initialize":
 		// the composed builder starts from a by-value copy of the source builder's Constructor: both
 		// slices share one backing array with spare capacity (3 constants appended one by one: cap 4)
